@@ -106,7 +106,25 @@ def kverif(group, args, timeout=1800, env=None, allow_fail=False):
 # ----------------------------------------------------------------------------- TLC
 
 _STATS = re.compile(r"(\d+) states generated, (\d+) distinct states found")
-_TUPLE = re.compile(r'^<<"([A-Z0-9]+)"(.*)>>\s*$')
+_TUPLE = re.compile(r'^<<"([A-Z0-9]+)"(.*)>>\s*$', re.S)
+
+
+def _tuple_texts(out):
+    """PrintT'ed tuples, re-joined: TLC's pretty printer wraps tuples wider than 80 columns over several lines."""
+    lines = out.splitlines()
+    i = 0
+    while i < len(lines):
+        ln = lines[i].strip()
+        if re.match(r'^<<"[A-Z0-9]+"', ln):
+            buf = ln
+            j = i
+            while not buf.endswith(">>") and j + 1 < len(lines) and j - i < 200:
+                j += 1
+                buf += " " + lines[j].strip()
+            yield buf
+            i = j + 1
+        else:
+            i += 1
 
 
 def _parse_tuple_fields(s):
@@ -149,8 +167,8 @@ def tlc(module, cfg=None, pid="misc", workers=4, timeout=600, env=None, simulate
            "tuples": [], "violated": [], "error": None}
     for m in _STATS.finditer(out):
         res["generated"], res["distinct"] = int(m.group(1)), int(m.group(2))
-    for line in out.splitlines():
-        m = _TUPLE.match(line.strip())
+    for text in _tuple_texts(out):
+        m = _TUPLE.match(text)
         if m:
             res["tuples"].append([m.group(1)] + _parse_tuple_fields(m.group(2)))
     for m in re.finditer(r"Invariant (\S+) is violated", out):
